@@ -9,8 +9,6 @@ import (
 	"time"
 
 	"github.com/markusressel/fan2go/internal/api"
-	"github.com/markusressel/fan2go/internal/controller"
-	"github.com/markusressel/fan2go/internal/statistics"
 	"github.com/markusressel/fan2go/zverif/check"
 	"github.com/markusressel/fan2go/zverif/kernel"
 	"github.com/markusressel/fan2go/zverif/stage"
@@ -85,14 +83,7 @@ func runC20(t *testing.T, sc *world.Scenario) *check.Result {
 			st.W.FreeRun = true
 		}
 		st.OnBooted = func(st *stage.Stage) {
-			// what initializeFanControllers does in the daemon
-			var ctls []controller.FanController
-			for _, id := range st.W.SortedFanIDs() {
-				if c := st.Ctls[id]; c != nil {
-					ctls = append(ctls, c)
-				}
-			}
-			statistics.Register(statistics.NewControllerCollector(ctls))
+			// (the controller collector is registered by the daemon's own initializeFanControllers, which the stage calls)
 			rest := api.CreateRestService()
 			get := func(path string) {
 				req := httptest.NewRequest(http.MethodGet, path, nil)
